@@ -141,7 +141,8 @@ def check_law(ctx, prog, ref, rargs, rkw, draw, n1, F, seed, fixed=None, fixed_p
                     bad = ("retval", i, np.asarray(rv[i]).tolist(), np.asarray(ret).tolist(), gfi._short(chi))
                 elif extra_ref:
                     want = extra_ref({"site": {p: per.array(p, np.float64) for p in per.d}, "logp": acc[0], "mag": acc[1], "retval": ret})
-                    if not gfi.close(ex[i], want, acc[1]):
+                    # an undefined reference (inf - inf: a kept value that is impossible both before and after) decides nothing
+                    if not np.isnan(want) and not gfi.close(ex[i], want, acc[1]):
                         bad = (extra_name, i, float(ex[i]), want, gfi._short(chi))
             for k, u in us.items():
                 cols.setdefault(k, []).append(u)
